@@ -25,6 +25,8 @@ KINDS = {
     '{n: ${0}}': (False, None), 'em{i ${0}}': (False, None),      # text that ends with the field its children replace
     'x[id]': (False, ''), 'x[class=""]': (False, ''),            # a comment trigger without a value: a comment with an empty payload
     'html': (False, None),                                         # in the default output.formatSkip list
+    'tm': (False, None), 'bod': (False, None),                     # substrings of `html` / `body`: not exempted, not forced
+    'td[width=1 hidden]': (False, None), 'x[data-id=3]': (False, None),      # attribute names that merely contain `id` / `class`: no comment
     # text-only nodes whose children are written in place of the first field (clause (i) only)
     '{a ${0} b}': (False, None), '{[${0}${1:f}]}': (False, None),
 }
